@@ -33,4 +33,43 @@ STATUS = {
               "field is fed from the same-side getter; each live insertion is preceded by the trading test + opposite-side matching loop; no "
               "&self query can abort (panic census, discharge table). Numeric equality for particular states is not computed."),
         note=TRUST + "Assumes valid histories (resting volume < 2^32, LEVELS*tick < 2^32, valid ids)."),
+    "C01": dict(
+        claimed=True,
+        technique="provenance of priority keys (K1/K3), sibling mirror of side wrappers (K2), loop-guard/exit-edge analysis of the matching loops (K4), fill-rule origins (K5), typestate exit states (K6)",
+        text=("Decides the premises K1-K6 from which agreement with a reference price-time engine follows by induction (given invariant I, itself "
+              "proved by the typestate analysis, and BTreeMap ordering): key price = order price through a monotone side transform, key time = clock / "
+              "strictly increasing stamp at the call, loops pop the head of the opposite side under `vol > 0 && limit admits best` and leave only when a "
+              "conjunct fails or the side is empty, fill = min at the passive price, remainders queue on their own side iff limit and not Filled. "
+              "The induction is an informal argument; extensional equality on concrete histories is not computed."),
+        note=TRUST + "Assumes valid histories (clock non-decreasing, prices strictly inside (0, 2^32-1))."),
+    "C05": dict(
+        claimed=True,
+        technique="provenance of the key's time component + idiom check of the stamp method (returns max(clock, counter), counter := result+1, single writer) + loader origin check",
+        text=("Decides the necessary structural condition for tie histories: the priority-map key is injective over queued orders and ordered by "
+              "queueing sequence, because every queue time is a strictly increasing stamp that feeds exactly one key, the map key contains it, and the "
+              "loader restores the counter above all stored queue times. Raw clock / order id are rejected as uniqueness sources. Behaviour of the other "
+              "properties on tie histories follows from their own rules and is not re-argued."),
+        note=TRUST + "Assumes queue times stay below 2^64-1."),
+    "C06": dict(
+        claimed=True,
+        technique="refined branch-condition analysis of modify_order's dispatch + effect summaries (priority map untouched in place) + typestate of the replacement path + write census",
+        text=("Decides on modify_order's CFG: in-place iff (None, Some(v)) with v strictly below the current volume, that path never writes a priority "
+              "map and only the volume; (None, None) reaches no effectful call; the other dispatches pass exactly requested/kept price and volume to one "
+              "replacement routine that removes, assigns, re-matches under the trading guard and re-queues iff not Filled under a fresh key; identity fields "
+              "and arr_time have no writer reachable from modify_order."),
+        note=TRUST + "Assumes the order id exists and modify volumes >= 1."),
+    "C12": dict(
+        claimed=True,
+        technique="grid-alignment abstract domain over price provenance (remainder-guard dominance with path-feasibility refinement, interprocedural through call sites) + effect analysis of rejecting slices",
+        text=("Decides that every value that can reach Order.price (field writes and constructor calls) is a market sentinel, an existing order price, or "
+              "dominated by `v % tick_size == 0` on every feasible path from the public API; that the rejecting slices of create_order have no effect and "
+              "return an error; and that Market/Env/MarketEnv creation paths perform their own effects only after the creation succeeded."),
+        note=TRUST + "tick_size > 0 is asserted by the constructor."),
+    "C13": dict(
+        claimed=True,
+        technique="call-chain guard dominance (every chain to the trade writer passes a trading==true controlled call), effect analysis of the trading-off slices, writer census of the flag, fan-out shape rules",
+        text=("Decides: no call chain from a public book entry reaches the trade writer without a call site controlled by trading == true; with the flag "
+              "off market placement only marks Rejected + end_time; insertions do not depend on the flag; the flag has exactly two constant writers that "
+              "write nothing else, no copy exists, and the Market/Env/MarketEnv toggles reach every book and the same-named toggle."),
+        note=TRUST),
 }
